@@ -1612,6 +1612,18 @@ impl Monitors {
             if oa.rx_queue_bytes > 0 && w.reader.is_some() {
                 v.push(f("C02", "wake-ups", "wake/reader-not-woken-with-data-queued", format!("the reader is parked in poll_read although {} bytes are queued for it", oa.rx_queue_bytes)));
             }
+            // ... or with the end of the stream: the peer's FIN arrived in sequence (for a peer that kept to
+            // the window), everything before it has been read, nothing is parked in the reassembly queue
+            if let Some(fi) = w.peer_fin_idx {
+                if self.fin_in_order_seen && w.cfg.peer_respects_window && w.read == w.peer_off_of(fi) && oa.rx_queue_bytes == 0 && oa.rx_ooq_packets <= 1 && w.reader.is_some() && rec.d_polls > 0 && rec.rejected.is_empty() {
+                    v.push(f(
+                        "C02",
+                        "wake-ups",
+                        "wake/reader-not-woken-at-end-of-stream",
+                        format!("the peer's FIN has arrived in sequence and all {} bytes before it have been read, but the reader parked in poll_read was not woken: it learns of the end of the stream only when the connection ends", w.read),
+                    ));
+                }
+            }
         }
         if matches!(w.w_parked, Parked::Flush | Parked::Shutdown) && oa.tx_ring_len == 0 && w.w_parked == Parked::Flush {
             v.push(f("C02", "wake-ups", "wake/flush-not-woken-when-ring-empty", "poll_flush is parked although the TX ring is empty".to_string()));
